@@ -122,6 +122,11 @@ class CallSet:
                     # VCF 4.4 spelling: a leading separator gives the phase of the first allele (`|0|1`, `/1/1`); same genotype
                     gs = ("|" if g[1][0] else "/") + gs
                 vals = ([] if r.no_gt else [gs]) + [self._fmt_val(r.extra_fmt[k][si]) for k in r.extra_fmt]
+                if getattr(self, "bare_dot", 0) and not r.no_gt and all(a is None for a in g[0]) and len(g[0]) == 2 and (r.pos + si) % self.bare_dot == 0 \
+                        and all(v_ == "." for v_ in vals[1:]):
+                    # a sample without any value: the whole column is a single '.' (legal VCF; the genotype is missing)
+                    cols.append(".")
+                    continue
                 # trailing missing fields may be dropped (VCF spec); do so deterministically for odd samples
                 if si % 2 == 1:
                     while len(vals) > 1 and vals[-1] == ".":
